@@ -1,4 +1,19 @@
-"""C12 — equilibrium-range wind estimate: closed form and direction conventions (peak method proved; mean method bounded)."""
+"""C12 — equilibrium-range wind estimate: closed form and direction conventions.
+
+equilibrium_range_values is under contract for method="peak" and for method="mean".  The mean method is proved for
+number_of_bins in {2, 3} (the window is unrolled), symbolic spectrum length and batch size, symbolic fmax, NaN-free spectra whose
+compared window means are non-zero:
+  from the code (the statement is silent on how the range is found):
+    search range  lo = first argmin |f - 0|, hi = min(max(lo + 1, first argmin |f - fmax| + 1 - nb), nf - nb); ValueError iff nf = 0 or nf - nb < lo + 1
+    measure       V(i) = mean_k (S_k - m)^2 / m^2 over the nb bins from i, S = E f^power, m their mean   (loop invariant: variance[:, c] = V(lo + c))
+    selection     i* = lo + first argmin_c V(lo + c)
+    result        e = (1/nb) sum_k S(clip(i* + k, 0, nf - 1 - nb)), a1 / b1 the same means of the moments  - the clip bound is nf - 1 - nb,
+                  not nf - 1: a window that starts above nf - 2 nb is averaged with its last bins replaced by bin nf - 1 - nb, although
+                  the measure was taken over the unclipped window (recorded as an observation, the statement does not speak about it)
+  from the statement:
+    on a spectrum that is exactly c f^-power over the searched band [lo, nf) the level is c.
+Not covered by the proof (bounded check `mean_method_and_scaling` / nothing): the default number_of_bins = 20, spectra with NaN bins (the
+measure skips them, the accumulation does not), windows whose mean is 0 (0/0), partial c f^-4 ranges (bounded)."""
 from pyvc.api import *
 from pyvc.run import Lemma, Bounded
 from contracts.spec_common import *
@@ -229,7 +244,7 @@ u10 = Contract(
 )
 
 def _bounded_mean_and_reduction(tier, seed):
-    """mean method (window search with clipping: outside the verifier), scaling, 2D == 1D reduction, both methods on an exact c f^-4 range"""
+    """default number_of_bins = 20 (the proof instances unroll 2 and 3 bins), partial c f^-4 ranges, scaling, both methods"""
     import numpy as np
     from ocean_science_utilities.wavespectra.spectrum import create_1d_spectrum, create_2d_spectrum
     from ocean_science_utilities.wavephysics.windestimate import equilibrium_range_values, friction_velocity as fvf, estimate_u10_from_spectrum as u10f
@@ -269,8 +284,252 @@ def _bounded_mean_and_reduction(tier, seed):
 
 BOUNDED = [Bounded("mean_method_and_scaling", _bounded_mean_and_reduction)]
 
-CONTRACTS = [equilibrium_peak, friction_velocity, u10]
+# ---- equilibrium_range_values, method "mean": minimum-relative-variance window of `number_of_bins` consecutive bins
+from pyvc.loops import LoopContract
+
+
+def scaled(sp, p, k, power):
+    """E f^power at frequency k (the mean method does not fill missing bins: NaN-free spectra in the proved instances)"""
+    return sp.E(p, k) * powr(sp.f[k], power)
+
+
+def window_mean(sp, p, i, nb, power):
+    """mean of E f^power over the bins [i, i + nb)"""
+    return sum(scaled(sp, p, i + k, power) for k in range(nb)) / nb
+
+
+def window_measure(sp, p, i, nb, power):
+    """the quantity the code minimises over window starts i (from the code, the statement is silent):
+    mean_k (S_k - m)^2 / m^2  over the nb bins starting at i, m their mean"""
+    m = window_mean(sp, p, i, nb, power)
+    dev = sum((scaled(sp, p, i + k, power) - m) * (scaled(sp, p, i + k, power) - m) for k in range(nb)) / nb
+    return dev / (m * m)
+
+
+def first_argmin(lo, hi, fn):
+    """first index in [lo, hi) at which fn is minimal (np.argmin's rule)"""
+    if is_symbolic(lo, hi) or is_symbolic(fn(lo)):
+        bv = T.Fresh.int("m")
+        return T.make_argmax(lo, hi, bv, -T.to_real(T.to_z3(fn(bv))), z3true())
+    best = None
+    for k in range(int(lo), int(hi)):
+        if best is None or fn(k) < fn(best):
+            best = k
+    return best
+
+
+def search_range(sp, a, nb):
+    """[lo, hi): the window starts the code compares (from the code): lo = bin nearest to 0 Hz, hi = bin nearest to fmax, + 1 - nb,
+    at least lo + 1, at most nf - nb (so that every compared window lies inside the spectrum)"""
+    key = None
+    if is_symbolic(sp.nf):
+        # one pair of search terms per symbolic spectrum (requires and ensures are built separately; a second pair of
+        # function symbols for the same two searches would have to be identified with the first by the solver)
+        key = (str(sp.f[0]), str(sp.nf), str(a.fmax), nb)
+        if key in _RANGE_TERMS:
+            return _RANGE_TERMS[key]
+    lo = first_argmin(0, sp.nf, lambda k: absv(sp.f[k] - 0))
+    top = first_argmin(0, sp.nf, lambda k: absv(sp.f[k] - a.fmax)) + 1 - nb
+    hi = If(top >= lo + 1, top, lo + 1)
+    hi = If(hi <= sp.nf - nb, hi, sp.nf - nb)
+    if key is not None:
+        _RANGE_TERMS[key] = (lo, hi)
+    return lo, hi
+
+
+_RANGE_TERMS = {}
+
+
+def room_for_a_window(sp, a, nb):
+    if not is_symbolic(sp.nf) and sp.nf == 0:
+        return False
+    lo, hi = search_range(sp, a, nb)
+    return And(sp.nf > 0, sp.nf - nb >= lo + 1)
+
+
+def selected_start(sp, a, p, nb, rng=None):
+    """the window start the code selects: the first minimiser of the window measure over [lo, hi)
+    (rng: the search range if the caller has built it already - one search term per bound keeps the obligation small)"""
+    lo, hi = search_range(sp, a, nb) if rng is None else rng
+    return lo + first_argmin(0, hi - lo, lambda c: window_measure(sp, p, lo + c, nb, a.power))
+
+
+def clipped(sp, i, nb):
+    """np.clip(i, 0, nf - 1 - nb) exactly as the code clips the bins of the selected window (from the code: the bound is
+    nf - 1 - number_of_bins, not nf - 1, so a window that starts above nf - 2 nb repeats the bin nf - 1 - nb)"""
+    top = sp.nf - 1 - nb
+    return If(i < 0, 0, If(i > top, top, i))
+
+
+def mean_over_selected_window(sp, a, p, nb, value, i=None):
+    i = selected_start(sp, a, p, nb) if i is None else i
+    return sum(value(clipped(sp, i + k, nb)) for k in range(nb)) * (1 / Fraction(nb) if is_symbolic(i) else 1.0 / nb)
+
+
+def _returned_without_room(sp, a, nb):
+    """executable twin only: a normal return although no window fits (the code must raise ValueError there) fails every clause"""
+    return sp.native and not room_for_a_window(sp, a, nb)
+
+
+def _mean_level(nb):
+    def post(a, r):
+        sp = Spec(a.spectrum)
+        if _returned_without_room(sp, a, nb):
+            return False
+        e = _vec(r[0])
+        return forall(0, sp.np_, lambda p: eq(e(p), mean_over_selected_window(sp, a, p, nb, lambda k: scaled(sp, p, k, a.power))), "p")
+    return post
+
+
+def _mean_moments(nb):
+    def post(a, r):
+        sp = Spec(a.spectrum)
+        if _returned_without_room(sp, a, nb):
+            return False
+        a1, b1 = _vec(r[1]), _vec(r[2])
+
+        def one(p):
+            i = selected_start(sp, a, p, nb)      # one search term shared by the two moments
+            return And(eq(a1(p), mean_over_selected_window(sp, a, p, nb, lambda k: sp.var("a1", p, k), i)),
+                       eq(b1(p), mean_over_selected_window(sp, a, p, nb, lambda k: sp.var("b1", p, k), i)))
+        return forall(0, sp.np_, one, "p")
+    return post
+
+
+def _mean_power_law(nb):
+    """from the statement: on a spectrum that is exactly c f^-power over the searched band the level is c"""
+    def post(a, r):
+        sp = Spec(a.spectrum)
+        if _returned_without_room(sp, a, nb):
+            return False
+        e = _vec(r[0])
+        lo, hi = search_range(sp, a, nb)
+        return forall(0, sp.np_, lambda p: implies(forall(lo, sp.nf, lambda k: eq(scaled(sp, p, k, a.power), scaled(sp, p, lo, a.power), rtol=1e-12, atol=0), "k"),
+                                                   eq(e(p), scaled(sp, p, lo, a.power))), "p")
+    return post
+
+
+def _mean_means_nonzero(nb):
+    def pre(a):
+        sp = Spec(a.spectrum)
+        if not is_symbolic(sp.nf) and sp.nf == 0:
+            return True
+        lo, hi = search_range(sp, a, nb)
+        # the window total is written with the Sum operator (Sum_{k in [i, i+nb)} S_k, the same number as the unrolled sum): as a
+        # hypothesis the unrolled form E(p,i) ... E(p,i+nb-1) would be a matching loop for the solver (each instance offers the next i)
+        return forall(0, sp.np_, lambda p: forall(lo, hi, lambda i: Not(eq(Sum(i, i + nb, lambda k: scaled(sp, p, k, a.power)), 0, rtol=0, atol=0)), "i"), "p")
+    return pre
+
+
+def _p_eq_mean(nb):
+    def p(mk):
+        return {"spectrum": spectrum(mk, "1d", nan=False), "method": "mean", "fmax": mk.real("fmax"), "power": 4, "number_of_bins": nb}
+    return p
+
+
+def _mean_loop_inv(nb):
+    def inv(ns):
+        """the counter runs with the loop index; every column of `variance` filled so far holds the window measure.
+        (one quantifier over (p, c) with the cell variance[p, c] as its pattern: as a hypothesis, patterns inferred from the
+        measure's E(p, i_min + c + k) terms would be a matching loop)"""
+        import z3
+        sp = Spec(ns.spectrum)
+        p, c = T.Fresh.int("p"), T.Fresh.int("c")
+        cell = T.to_z3(ns.variance[p, c])
+        body = z3.Implies(z3.And(p >= 0, p < T.to_z3(sp.np_), c >= 0, c < T.to_z3(ns.i_counter)),
+                          T.to_z3(eq(ns.variance[p, c], window_measure(sp, p, ns.i_min + c, nb, ns.power))))
+        plain = z3.is_app(cell) and cell.decl().kind() == z3.Z3_OP_UNINTERPRETED and cell.num_args() == 2
+        filled = z3.ForAll([p, c], body, patterns=[cell]) if plain else z3.ForAll([p, c], body)
+        return And(ns.i_counter == ns.iFreq - ns.i_min, filled)
+    return inv
+
+
+def _mean_spectrum(E, f):
+    import numpy as np
+    from ocean_science_utilities.wavespectra.spectrum import create_1d_spectrum
+    rng = np.random.default_rng(5)
+    n = E.shape[0]
+    r = np.sqrt(rng.random(E.shape)) * 0.9
+    t = rng.uniform(-np.pi, np.pi, E.shape)
+    return create_1d_spectrum(f, E, np.arange(n) * 3600, np.zeros(n), np.zeros(n), a1=r * np.cos(t), b1=r * np.sin(t),
+                              a2=r * 0, b2=r * 0, depth=np.full(n, np.inf))
+
+
+def _mean_kw(s, nb, fmax):
+    return (f"bins{nb}", {"spectrum": s, "method": "mean", "fmax": fmax, "power": 4, "number_of_bins": nb})
+
+
+def _wit_mean_random(nb):
+    import numpy as np
+    f = np.array([0.0, 0.03, 0.05, 0.08, 0.1, 0.15, 0.22, 0.3, 0.45, 0.5, 0.8])
+    E = np.random.default_rng(21 + nb).random((3, len(f))) + 0.01
+    return _mean_kw(_mean_spectrum(E, f), nb, 0.5)
+
+
+def _wit_mean_clipped(nb):
+    """the flattest window is the last one compared and starts above nf - 2 nb: the code's clip (nf - 1 - nb) repeats a bin"""
+    import numpy as np
+    f = np.linspace(0.05, 0.6, 12)
+    E = (np.random.default_rng(3).random((2, 12)) + 0.5) * f[None, :] ** -4.0
+    E[:, 12 - nb - 1:] = 2.5e-4 * f[None, 12 - nb - 1:] ** -4.0          # exactly flat E f^4 on the last nb + 1 bins
+    return _mean_kw(_mean_spectrum(E, f), nb, 5.0)
+
+
+def _wit_mean_power_law(nb):
+    """exact c f^-4 in floating point (frequencies and levels are powers of two): every window measure is exactly 0, the first
+    window is selected by the code and by the executable twin alike"""
+    import numpy as np
+    f = 2.0 ** np.arange(-6, 3)
+    c = np.array([2.0 ** -13, 3 * 2.0 ** -14])
+    return _mean_kw(_mean_spectrum(c[:, None] / f[None, :] ** 4, f), nb, 0.5)
+
+
+def _wit_mean_no_room(nb):
+    import numpy as np
+    f = np.array([0.1, 0.2])[:nb]            # fewer than nb + 1 bins: ValueError
+    return _mean_kw(_mean_spectrum(np.ones((1, len(f))), f), nb, 0.5)
+
+
+def _mean_samples(rng, tier):
+    import numpy as np
+    out = []
+    for _ in range(20 if tier == "quick" else 200):
+        nb = int(rng.choice(MEAN_BINS))
+        nf = int(rng.integers(nb + 1, 16))
+        f = np.cumsum(rng.uniform(0.01, 0.08, nf)) + (0.0 if rng.random() < 0.3 else rng.uniform(0.0, 0.05)) - 0.01
+        f[0] = max(f[0], 0.0)
+        E = (rng.random((int(rng.integers(1, 4)), nf)) + 0.05) * 10 ** rng.uniform(-4, 0)
+        # (no exactly flat ranges here: their window measures tie at rounding level, and which of the tied windows a float
+        #  argmin picks is not something the executable twin can reproduce; flat ranges are in the witnesses and the bounded check)
+        out.append(_mean_kw(_mean_spectrum(E, f), nb, float(rng.choice([0.2, 0.5, 1.25, f[-1], f[nf // 2]]))))
+    return out
+
+
+MEAN_BINS = (2, 3)
+_only = lambda nb: {f"bins{nb}"}
+equilibrium_mean = Contract(
+    W + "equilibrium_range_values", label="equilibrium_range_values.mean", instances=[(f"bins{nb}", _p_eq_mean(nb)) for nb in MEAN_BINS],
+    requires=[("dims", lambda a: And(Spec(a.spectrum).np_ >= 0, Spec(a.spectrum).nf >= 0))]
+             + [(f"window_means_nonzero", _mean_means_nonzero(nb), _only(nb)) for nb in MEAN_BINS],
+    ensures=[c for nb in MEAN_BINS for c in (
+        ("level_is_mean_of_E_fpower_over_the_minimum_variance_window", _mean_level(nb), _only(nb)),
+        ("moments_are_means_over_the_same_window", _mean_moments(nb), _only(nb)),
+        ("level_is_c_on_an_exact_power_law_band", _mean_power_law(nb), _only(nb)))],
+    raises={"ValueError": lambda a: Not(room_for_a_window(Spec(a.spectrum), a, a.number_of_bins))},
+    native=_nat,
+    witness=[(lambda nb=nb, w=w: w(nb)) for nb in MEAN_BINS for w in (_wit_mean_random, _wit_mean_clipped, _wit_mean_power_law, _wit_mean_no_room)],
+    options={"samples": _mean_samples, "nl_factor_order": "symbol", "argmax_congruence": "semantic", "check_bounds": True,
+             "loop_invariants": {f"bins{nb}": {1: LoopContract(invariant=[("variance_filled_with_the_window_measure", _mean_loop_inv(nb))])} for nb in MEAN_BINS}},
+)
+
+CONTRACTS = [equilibrium_peak, friction_velocity, u10, equilibrium_mean]
 TRUSTED = ["xarray library contracts (argmax, pointwise isel, Dataset construction / assign)", "log, arctan2 uninterpreted (A-table ranges)",
-           "the 2D input is reduced by as_frequency_spectrum (contract in C02) before friction_velocity is called"]
+           "the 2D input is reduced by as_frequency_spectrum (contract in C02) before friction_velocity is called",
+           "mean method: number_of_bins in {2, 3}, spectra without NaN, every compared window mean non-zero (requires); real division, no inf / 0/0",
+           "DataArray[..., lo:hi] is the contiguous part lo..hi-1 of the last dimension (bounds in range: obligation); DataArray.mean(dim) = sum of the values present / their number",
+           "np.argmin(axis=-1) is the first index of the row minimum; np.clip(x, a_min, a_max); x[i0, i1] with equal-length integer arrays gathers pointwise; "
+           "x[arange(len(x))] += v is x[:] += v (the index array is proved to be the identity); np.unravel_index for a 1-d shape is the identity (indices in range: obligation)"]
 EXPLANATION = ("peak method: E_eq proved to be the maximum of fill0(E f^4) and the moments taken at its first maximiser; u* = 8 pi^3 E_eq / (4 g I beta), "
-               "direction = atan2(b1,a1) mod 360 in [0,360); U10 from the log law with Charnock roughness; (270 - dir) mod 360 convention; the mean method is a bounded check")
+               "direction = atan2(b1,a1) mod 360 in [0,360); U10 from the log law with Charnock roughness; (270 - dir) mod 360 convention; mean method (2 and 3 bins, any spectrum "
+               "length): search range, window measure (loop invariant), E_eq / a1 / b1 = means over the clipped minimum-variance window, E_eq = c on an exact c f^-power band; "
+               "20 bins and partial ranges stay a bounded check")
